@@ -27,7 +27,7 @@ META = {
         "<=10 type-directed mutants, 22 hostile-pool data) x 6 modes; each load is compared with the 3-valued reference of the documentation, "
         "each dump with the documented outer form. distinct = (type source, datum, mode); non-trivial = reference verdict is A or R (not "
         "unspecified) and the type is nested or the datum is rejected",
-        cases=(45, 900), budget=(45, 420),
+        cases=(90, 900), budget=(45, 420),
         minimums={"quick": {"evaluations": 20000, "distinct_nontrivial": 8000, "programs": 200, "verdict_R": 5000, "verdict_A": 1500, "dumps": 1500}},
         assumptions=["reference model vlib/spec.py is a faithful reading of docs/loading-and-dumping/specific-types-behavior.rst; "
                      "where the docs are silent the reference answers UNSPECIFIED and the case is only counted"],
@@ -45,21 +45,21 @@ META = {
         "one case = one random type x (valid, mutant, hostile data) x 2 coercion modes; the DISABLE/FIRST/ALL programs are run on the same datum and "
         "compared: success agreement, strict equality of results, and class+input_value correspondence of the single error with a node of the ALL tree "
         "(modulo list/tuple materialisation); dumping of valid and ill-typed objects likewise. distinct = (type, datum, coercion mode); non-trivial = some mode raised or the type is nested",
-        cases=(45, 900), budget=(45, 420),
+        cases=(80, 900), budget=(45, 420),
         minimums={"quick": {"triples": 8000, "failing_triples": 3000, "distinct_nontrivial": 4000}},
     ),
     "C07": _m(
         "one case = one random type x (valid, mutant, hostile data) x 3 debug modes; the strict and lax programs are run on the same datum: strict acceptance must imply "
         "lax acceptance with a strictly equal value (unless the reference says lax rules make union/literal cases overlap); strict acceptance of a datum outside the "
         "documented allowed strict origins is flagged. distinct = (type, datum, debug mode); non-trivial = strict accepted or only lax accepted",
-        cases=(45, 900), budget=(45, 420),
+        cases=(80, 900), budget=(45, 420),
         minimums={"quick": {"pairs": 10000, "strict_ok": 1500, "lax_only": 500, "distinct_nontrivial": 2000}},
     ),
     "C01": _m(
         "one case = one random type of the grammar x 6 generated values (boundary-biased) x 6 modes x {direct, json} legs; load(dump(x)) must be type-strictly equal to x. "
         "The reference model polices the domain (the dumped datum must have exactly one reading in that mode, i.e. union cases do not overlap for it). "
         "distinct = (type, value, mode, leg); non-trivial = type is nested and the dump rebuilt the value",
-        cases=(60, 1200), budget=(45, 420),
+        cases=(100, 1200), budget=(45, 420),
         minimums={"quick": {"evaluations": 8000, "distinct_nontrivial": 2000, "programs": 300, "leg_json": 1500}},
     ),
     "C03": _m(
@@ -69,7 +69,7 @@ META = {
         "extractor), valid by construction; run in 2 (every 4th case: 6) modes on inputs derived from the reference dump: full, each mapped key absent / ill-typed, each "
         "branch node replaced by 6 wrong kinds, extra keys at root and nested nodes, extra list items, other mapping kinds. Compared with the reference layout model "
         "(vlib/layout.py). distinct = (program, input, mode); non-trivial = reference verdict is not unspecified",
-        cases=(40, 800), budget=(50, 420),
+        cases=(80, 800), budget=(50, 420),
         minimums={"quick": {"programs": 200, "dumps": 400, "expected_ok": 800, "expected_reject": 2000, "opt_map": 100, "opt_name_style": 100, "opt_omit_default": 80,
                             "opt_extra_in": 60, "opt_skip": 40, "opt_only": 30, "opt_as_list": 15, "distinct_nontrivial": 3000}},
         assumptions=["reference layout model vlib/layout.py (DESIGN.md appendix B); empty branch nodes after sieving are compared modulo pruning; "
@@ -150,7 +150,7 @@ META = {
         "optionally with a skipped middle parameter, loaded twice in 2 (thorough: 6) modes. Oracle: constructor call log (exactly one call, one post-init, all validators), "
         "signature binding of the logged call, field-wise type-strict equality with the model's own construction from the present fields, factory call counts and "
         "non-sharing of factory results; plus on every run the whole default pool x 4 kinds. distinct = (model, present subset, mode, repetition); non-trivial = >= 1 optional field absent",
-        cases=(40, 800), budget=(50, 420),
+        cases=(80, 800), budget=(50, 420),
         minimums={"quick": {"programs": 250, "loads": 6000, "constructor_calls_logged": 6000, "distinct_nontrivial": 2500, "kind_func": 20, "kind_init": 40, "pkind_po": 20, "pkind_ko": 100}},
         assumptions=["adaptix may pass the default explicitly for absent fields: the oracle judges the resulting object and the binding, not which arguments are omitted"],
     ),
@@ -173,7 +173,7 @@ META = {
         "constants that must lose; a same-named top-level parameter that must win over the source field but must not leak into nested models); built through "
         "impl_converter / get_converter / ConversionRetort (+ per-call recipe=); executed on 3 source values. Oracle: evaluation of the plan (type-strict, field-wise), "
         "source snapshot unchanged, stub signature and name preserved; + 12 directed linking-rule cases. distinct = (pair, source value, api); every case is non-trivial",
-        cases=(70, 1500), budget=(50, 420),
+        cases=(100, 1500), budget=(50, 420),
         minimums={"quick": {"programs": 400, "conversions": 1000, "link_rename": 300, "link_function": 50, "link_constant_value": 80, "link_from_param": 40, "decoy_later_link": 40,
                             "parameter_shadows_source_field": 30, "directed_cases": 12, "distinct_nontrivial": 1000}},
         assumptions=["predicates inside conversion recipes are restricted to field ids, P[Model].field and from_param (their meaning is trivial)",
@@ -198,7 +198,7 @@ META = {
         "unbounded, bound and constrained TypeVars; member annotations T, List[T], Dict[str, T], Optional[T], Tuple[T, U] to depth 2) x (bare use + 4 random parametrisations "
         "from a pool of 6 pairwise-disjoint types) x (conforming datum, its dump, and for every field a datum fitting only another substitution). The closed type of every "
         "field comes from plain substitution on the generator's AST. distinct = (hierarchy source, parametrisation, datum kind, field); non-trivial = >= 2 classes or >= 2 type variables, or a non-conforming datum",
-        cases=(60, 1500), budget=(50, 420),
+        cases=(100, 1500), budget=(50, 420),
         minimums={"quick": {"hierarchies": 400, "conforming_loads": 1200, "nonconforming_loads": 2500, "dumps": 1200, "feature_diamond": 20, "feature_partial_binding": 80,
                             "feature_bare_use": 200, "feature_overridden_member": 30, "feature_bound_or_constrained_typevar": 30, "distinct_nontrivial": 2500}},
         assumptions=["pool types are pairwise disjoint under strict coercion on JSON data (int, str, bool, List[int], Dict[str, str], None), so rejection identifies the substitution"],
@@ -222,7 +222,7 @@ META = {
         "candidate data (all dumps, case / spelling neighbours, wrong types, out-of-range ints, duplicates, unknown names, unhashables, mappings, single strings) must be accepted "
         "exactly when they are representations and rejected with LoadError otherwise (==-look-alikes are unspecified); documented refusals for skipped / negative bits. "
         "distinct = (class, provider configuration, member or candidate, mode)",
-        cases=(40, 600), budget=(50, 420),
+        cases=(80, 600), budget=(50, 420),
         minimums={"quick": {"enum_classes": 120, "flag_classes": 120, "enum_roundtrips": 1500, "flag_roundtrips": 20000, "enum_candidates": 20000, "flag_candidates": 40000,
                             "flag_option_combinations": 1000, "documented_refusals": 2, "distinct_nontrivial": 30000}},
         assumptions=["bits that exist only inside a multi-bit member cannot be named with allow_compound=False: those combinations are outside the bijection's domain for that configuration"],
@@ -250,7 +250,7 @@ META = {
         "after, type-strict equality of repeated calls, id-graph disjointness of every mutable container between results and between result and argument outside documented "
         "as-is positions (Any / object; for converters only objects the plan says adaptix builds), snapshot of result 2 and of a third call after mutating result 1. "
         "distinct = (kind of call, program, input variant); non-trivial = the result contains a mutable container",
-        cases=(50, 1200), budget=(50, 420),
+        cases=(80, 1200), budget=(50, 420),
         minimums={"quick": {"load_call_pairs": 3000, "dump_call_pairs": 800, "convert_call_pairs": 250, "layout_programs": 400, "distinct_nontrivial": 2500}},
         assumptions=["sharing at Any / object positions (incl. values inside collected extras) is documented and allowed; frozen / immutable values are not tracked"],
     ),
